@@ -31,8 +31,7 @@ CLAIMS = {
             'parser\'s lexicon with the same size; exactly one suffix key per SSE row name, (row, prefix) -> printed mnemonic injective up to the collisions the assembler '
             'special-cases, mnemo_mmx_hash maps every printed name to a row that prints it; the fence/movhlps/implicit-operand special cases are inverse in both directions; a linear-use typestate over dict_to_ad shows that displacement, symbol and segment of an operand '
             'reach the rendered text exactly once on every path.',
-            'Not decided: equality of bytes after a concrete trip, the txt operand-order memo, candidate-set membership. Known findings: cr0-7/dr0-7 are printed but parsed as symbols '
-            '(enabling them exposes a second defect in asm_candidates, so not repaired).'),
+            'Not decided: equality of bytes after a concrete trip, the txt operand-order memo, candidate-set membership. cr0-7/dr0-7 (printed but formerly parsed as symbols) were repaired in /repo.'),
     'C09': ('other',
             'static analysis: partial evaluation of the table-driven AT&T mnemonic functions (mnemo_to_att / mnemo_from_att) over every printed mnemonic x operand-size form derived from the opcode table',
             'Decides that every mnemonic/operand-size form the decoder can produce reaches a return of mnemo_to_att (exhaustiveness of the five AT&T tables and of the size '
